@@ -25,4 +25,73 @@ example : snRun 4 [.reps '-' 1, .memory ['1', '2'], .reps ' ' 3] = { ret := 6, t
   decide
 example : snRun 0 [.memory ['1', '2']] = { ret := 2, text := [], stored := 0 } := by decide
 
+/-- `doprnti_big_layout`: for every value of every size (in particular beyond every C integer type), every list
+    of flag characters in any order, every width and precision form, every integer conversion: the bytes
+    produced for `%<flags><width><prec>Z<conv>` are the C99 padding, sign and prefix rules (`layoutCore`)
+    placed around the mpz_get_str digits of |v|, with o/x/X signed as the manual says.
+    Outside: an empty precision `.` (documented: "not given") and `#` with precision 0 on the value 0 in
+    base 16 (prints the bare prefix). -/
+theorem doprnti_big_layout (fl : List Char) (w : WidthArg) (p : PrecArg) (conv : Conv) (v : Int)
+    (hp : p ≠ .dot) (hx : ¬ ('#' ∈ fl ∧ cPrec p = some 0 ∧ v = 0 ∧ conv.base = 16)) :
+    layoutModel fl w p conv v =
+      layoutCore (cFlags fl w) (cWidth w) (cPrec p) conv.base conv.upper
+        (signChars (cFlags fl w) (decide (v < 0))) v.natAbs :=
+  layoutModel_eq_spec fl w p conv v hp hx
+
+-- non-vacuity: −10^40 in hex with `#`, `+`, zero padding to 40 columns
+example : String.ofList (layoutModel ['#', '+', '0'] (.num 40) .none .x (-(10 : Int) ^ 40)) =
+    "-0x0001d6329f1c35ca4bfabb9f5610000000000" := by decide +kernel
+example : String.ofList (layoutModel [' ', '-'] (.star (-12)) (.num 5) .o (2 ^ 64)) =
+    " 2000000000000000000000" := by decide +kernel
+
+/-- `doprnti_eq_c99`: for every value that fits a `long`, every list of flag characters (any order, repeats),
+    every width form {none, number, `*` with any int incl. negative}, every precision form {none, number,
+    `*` with any int incl. negative} and every conversion d i o x X to which C gives a meaning, outside the
+    documented deviations (`Comparable`): the bytes of `gmp_printf ("%…Z<conv>", v)` are exactly the bytes
+    ISO C99 prescribes for `printf ("%…l<conv>", (long) v)`. -/
+theorem doprnti_eq_c99 (fl : List Char) (w : WidthArg) (p : PrecArg) (conv : Conv) (v : Int)
+    (hv : -(2 ^ 63 : Int) ≤ v ∧ v < 2 ^ 63) (hc : Comparable fl p conv v) :
+    layoutModel fl w p conv v = cprintfIntL (cFlags fl w) (cWidth w) (cPrec p) conv v := by
+  obtain ⟨hu, hp, hs, hx⟩ := hc
+  rw [layoutModel_eq_spec fl w p conv v hp hx]
+  unfold gmpLayoutSpec cprintfIntL cFormatInt cFormatCore
+  cases hsg : conv.signed with
+  | true =>
+    have hw : ((v + 2 ^ (64 - 1)) % 2 ^ 64) - 2 ^ (64 - 1) = v := by omega
+    simp only [hw, if_true]
+  | false =>
+    rcases hs with hs | ⟨h0, hplus, hspace⟩
+    · rw [hsg] at hs; cases hs
+    · have hm : (v % 2 ^ 64).toNat = v.natAbs := by omega
+      have hneg : ¬ v < 0 := by omega
+      simp only [hm, Bool.false_eq_true, if_false, signChars, hneg, decide_false, cFlags]
+      simp [hplus, hspace]
+
+/-- the same statement for the `String` the specification function `cprintfInt` returns -/
+theorem doprnti_eq_c99_string (fl : List Char) (w : WidthArg) (p : PrecArg) (conv : Conv) (v : Int)
+    (hv : -(2 ^ 63 : Int) ≤ v ∧ v < 2 ^ 63) (hc : Comparable fl p conv v) :
+    String.ofList (layoutModel fl w p conv v) = cprintfInt (cFlags fl w) (cWidth w) (cPrec p) conv v := by
+  rw [doprnti_eq_c99 fl w p conv v hv hc]; rfl
+
+-- non-vacuity: the hypotheses hold and both sides are the expected text
+example : Comparable ['-', '0'] .none .d 1 := by decide
+example : String.ofList (layoutModel ['-', '0'] (.num 5) .none .d 1) = "1    " ∧
+    cprintfInt (cFlags ['-', '0'] (.num 5)) 5 none .d 1 = "1    " := by decide +kernel
+example : cprintfInt { hash := true } 0 (some 5) .o 1 = "00001" ∧ cprintfInt { zero := true } 5 (some 3) .d 1 = "  001" ∧
+    cprintfInt { plus := true, space := true } 0 none .d 0 = "+0" ∧
+    cprintfInt {} 0 none .x (-1) = "ffffffffffffffff" := by decide +kernel
+-- what the code did before commits 802f527, bbc62f3, 214972f, 68441a0 (the five defect classes found here):
+example : String.ofList (layoutModelG true ['-', '0'] (.num 5) .none .d 1) = "10000" := by decide +kernel       -- D1 "%-05Zd"
+example : String.ofList (layoutModelG true ['0'] (.num 5) (.num 3) .d 1) = "00001" := by decide +kernel         -- D2 "%05.3Zd"
+example : String.ofList (layoutModelG true ['#'] .none (.num 5) .o 1) = "000001" := by decide +kernel           -- D3 "%#.5Zo"
+example : String.ofList (layoutModelG true ['+', ' '] .none .none .d 0) = " 0" := by decide +kernel              -- D4 "%+ Zd"
+example : String.ofList (layoutModelG true [] .none (.star (-1)) .d 0) = "" := by decide +kernel                 -- D5 "%.*Zd", -1
+-- the documented deviations really are outside the C comparison
+example : String.ofList (layoutModel ['+'] .none .none .x 1) = "+1" ∧ cprintfInt { plus := true } 0 none .x 1 = "1" := by
+  decide +kernel
+example : String.ofList (layoutModel ['#'] .none (.num 0) .x 0) = "0x" ∧ cprintfInt { hash := true } 0 (some 0) .x 0 = "" := by
+  decide +kernel
+example : String.ofList (layoutModel [] .none .dot .d 0) = "0" ∧ cprintfInt {} 0 (some 0) .d 0 = "" := by decide +kernel
+
+
 end Mpir.Printf
